@@ -381,7 +381,107 @@ func hasInexactNumberText(v cty.Value) bool {
 	return found
 }
 
+// c08Structural: a structural value (object or tuple) whose member types have a common type only through
+// conversions, converted to a collection whose element type is left open: whatever type the known value's
+// conversion settles on, the unknown's and the null's conversion settle on too (the input's type says it all)
+func c08Structural(c *Ctx, r *rng.R) {
+	L, S, M := func(e *gt.T) *gt.T { return &gt.T{K: gt.List, Elem: e} }, func(e *gt.T) *gt.T { return &gt.T{K: gt.Set, Elem: e} }, func(e *gt.T) *gt.T { return &gt.T{K: gt.Map, Elem: e} }
+	N, St, B := gt.P(gt.Num), gt.P(gt.Str), gt.P(gt.Bool)
+	groups := [][]*gt.T{{L(N), S(St)}, {L(St), S(N), L(B)}, {N, St}, {B, St, N}, {L(N), L(St)}, {M(N), M(St)},
+		{&gt.T{K: gt.Tuple, Elems: []*gt.T{N, N}}, L(St)}, {&gt.T{K: gt.Obj, Attrs: []gt.Attr{{Name: "x", T: N}}}, M(St)}, {S(N), S(B)}, {N, N}}
+	g := groups[r.Intn(len(groups))]
+	var src, tgt *gt.T
+	if r.Bool() {
+		src = &gt.T{K: gt.Obj}
+		for k, m := range g {
+			src.Attrs = append(src.Attrs, gt.Attr{Name: []string{"a", "b", "c"}[k], T: m})
+		}
+		tgt = M(gt.P(gt.Dyn))
+	} else {
+		src = &gt.T{K: gt.Tuple, Elems: g}
+		tgt = []*gt.T{L(gt.P(gt.Dyn)), S(gt.P(gt.Dyn))}[r.Intn(2)]
+	}
+	if r.Chance(25) { // one level down
+		src = &gt.T{K: gt.Tuple, Elems: []*gt.T{src, B}}
+		tgt = &gt.T{K: gt.Tuple, Elems: []*gt.T{tgt, B}}
+	}
+	target := tgt.Build()
+	var known, rk cty.Value
+	var ek error
+	pk := false
+	for try := 0; try < 6; try++ { // (an unsafe conversion can refuse particular values: "abc" is no number)
+		known = gv.Gen(r, src, gv.KnownCfg, 2)
+		pk, _ = recovered(func() { rk, ek = convert.Convert(known, target) })
+		if !pk && ek == nil {
+			break
+		}
+	}
+	desc := map[string]interface{}{"source": src.String(), "target": tgt.String(), "known": cq.Show(known)}
+	c08Pair(c, r, known, tgt, "structural/known")
+	for _, u := range []cty.Value{cty.UnknownVal(src.Build()), cty.NullVal(src.Build()), cty.UnknownVal(src.Build()).RefineNotNull()} {
+		c08Pair(c, r, u, tgt, "structural/unknown-or-null")
+		var ru cty.Value
+		var eu error
+		pu, _ := recovered(func() { ru, eu = convert.Convert(u, target) })
+		c.Count("oracle_evals")
+		switch {
+		case pk || pu:
+		case ek == nil && eu != nil:
+			c.Fail("C08/unknown-fails", fmt.Sprintf("a known value of this type converts, %s does not: %v", cq.Show(u), eu), desc)
+		case ek == nil && !ru.Type().Equals(rk.Type()):
+			c.Fail("C08/unknown-result-type-differs", fmt.Sprintf("a known value of this type converts to %#v, %s to %#v", rk.Type(), cq.Show(u), ru.Type()), desc)
+		}
+	}
+}
+
+// c08MapToObject: maps with null elements and missing keys converted to object types whose attributes are
+// required or optional, of the element type, of a type it converts to, or of a type it does not convert to
+func c08MapToObject(c *Ctx, r *rng.R) {
+	et := []*gt.T{gt.P(gt.Str), gt.P(gt.Num), gt.P(gt.Bool)}[r.Intn(3)]
+	m := map[string]cty.Value{}
+	for _, k := range []string{"a", "b", "c"} {
+		switch r.Intn(4) {
+		case 0: // absent
+		case 1:
+			m[k] = cty.NullVal(et.Build())
+		default:
+			m[k] = gv.Gen(r, et, gv.KnownCfg, 1)
+		}
+	}
+	var v cty.Value
+	if len(m) == 0 {
+		v = cty.MapValEmpty(et.Build())
+	} else {
+		v = cty.MapVal(m)
+	}
+	o := &gt.T{K: gt.Obj}
+	for _, k := range []string{"a", "b", "c"}[:2+r.Intn(2)] {
+		at := et
+		switch r.Intn(4) {
+		case 0:
+			at = gt.P(gt.Str)
+		case 1:
+			at = &gt.T{K: gt.List, Elem: gt.P(gt.Str)}
+		case 2:
+			at = &gt.T{K: gt.Obj, Attrs: []gt.Attr{{Name: "q", T: gt.P(gt.Bool)}}}
+		}
+		o.Attrs = append(o.Attrs, gt.Attr{Name: k, T: at})
+		if r.Chance(55) {
+			o.Opt = append(o.Opt, k)
+		}
+	}
+	c08Pair(c, r, v, o, "map-to-object")
+}
+
 func genC08(c *Ctx, r *rng.R, i int) {
+	if r.Chance(6) {
+		c08Structural(c, r)
+		return
+	}
+	if r.Chance(5) {
+		c08MapToObject(c, r)
+		return
+	}
 	t := gt.Gen(r, c08cfg)
 	var tt *gt.T
 	class := "derived"
@@ -411,7 +511,13 @@ func genC08(c *Ctx, r *rng.R, i int) {
 		desc := map[string]interface{}{"known": cq.Show(k), "weakened": cq.Show(u), "target": tt.String()}
 		if !pk && !pu && ek == nil {
 			if eu != nil {
-				c.Fail("C08/unknown-fails", "the conversion succeeds on a value but fails on an unknown that admits it: "+eu.Error(), desc)
+				sig := "C08/unknown-fails"
+				if strings.Contains(eu.Error(), "types must all match") && target.HasDynamicTypes() && hasEmptyCollection(k) {
+					// KF-C08-3: the two typings of KF-C08-2 met as siblings (an empty collection keeps the placeholder,
+					// the unknown next to it resolves it), so the collection around them cannot be built
+					sig = "C08/unknown-next-to-empty-collection-under-placeholder"
+				}
+				c.Fail(sig, "the conversion succeeds on a value but fails on an unknown that admits it: "+eu.Error(), desc)
 			} else if why := gv.Admits(ru, rk); why != "" {
 				sig := "C08/unknown-not-admitting"
 				if strings.Contains(why, "conform") && rk.Type().HasDynamicTypes() && !ru.Type().Equals(rk.Type()) {
@@ -782,4 +888,17 @@ func deriveTargetNoOpt(r *rng.R, t *gt.T) *gt.T {
 		p.Opt = nil
 	}
 	return m
+}
+
+func hasEmptyCollection(v cty.Value) bool {
+	found := false
+	recovered(func() {
+		cty.Walk(v, func(p cty.Path, x cty.Value) (bool, error) {
+			if x.IsKnown() && !x.IsNull() && x.Type().IsCollectionType() && x.LengthInt() == 0 {
+				found = true
+			}
+			return true, nil
+		})
+	})
+	return found
 }
